@@ -541,3 +541,64 @@ def run_harness(vlib, impl, lines, env=None, timeout=1800):
                         rows[cid] = r1
                         break
     return rows, err
+
+
+# ---------------------------------------------------------------- anchored source drift (informational)
+ANCHORS = {
+    'mir-x86_64.c': ['va_arg_builtin', 'va_block_arg_builtin', '_MIR_get_ff_call', '_MIR_get_interp_shim'],
+    'mir-gen-x86_64.c': ['target_call_used_hard_reg_p', 'get_fp_arg_reg', 'get_int_arg_reg', 'get_arg_reg', 'machinize_call',
+                         'target_get_stack_slot_offset', 'target_machinize', 'target_make_prolog_epilog'],
+    'mir-interp.c': ['ff_interface_eq', 'call', 'interp'],
+}
+
+
+def function_text(src, name):
+    """text of the C function `name` (definition starting at column 0), comments and blanks removed"""
+    import re
+    m = re.search(r'^[A-Za-z_][^\n;{}()]*\b%s \([^;{]*\)\s*\{' % re.escape(name), src, re.M)
+    if not m:
+        return None
+    i = m.end()
+    depth = 1
+    while i < len(src) and depth:
+        depth += {'{': 1, '}': -1}.get(src[i], 0)
+        i += 1
+    body = src[m.start():i]
+    body = re.sub(r'/\*.*?\*/', '', body, flags=re.S)
+    body = re.sub(r'//[^\n]*', '', body)
+    return re.sub(r'\s+', '', body)
+
+
+def anchor_hashes(repo):
+    import hashlib, os
+    out = {}
+    for f, names in ANCHORS.items():
+        try:
+            src = open(os.path.join(repo, f), errors='replace').read()
+        except OSError:
+            src = ''
+        for n in names:
+            t = function_text(src, n)
+            out['%s:%s' % (f, n)] = hashlib.sha1(t.encode()).hexdigest()[:16] if t else 'missing'
+    return out
+
+
+def anchor_drift(vlib, chk):
+    """compare the hashes of the transcribed C functions with those recorded when the Coq transcriptions
+    were last reviewed (corpus/c05_anchors.json); a difference is a NOTE in the evidence, never a violation:
+    the correspondence run decides whether behaviour changed"""
+    import json, os
+    cur = anchor_hashes(vlib.REPO)
+    path = os.path.join(vlib.VERIF, 'corpus', 'c05_anchors.json')
+    try:
+        ref = json.load(open(path))
+    except (OSError, ValueError):
+        ref = {}
+    changed = sorted(k for k in cur if ref.get(k) != cur[k])
+    chk.cov['transcribed_functions'] = len(cur)
+    chk.cov['transcribed_functions_changed_since_review'] = changed
+    if changed:
+        chk.log('note: source of transcribed functions changed since the Coq models were reviewed: %s '
+                '(the theorems speak about the reviewed text; the correspondence run below decides)' % ', '.join(changed))
+        chk.notes.append('transcribed functions changed since review: ' + ', '.join(changed))
+    return changed
